@@ -56,7 +56,7 @@ class Ctx:
                 last["t_last"] = now
                 return last
             extra["n"], extra["t_last"] = 1, now
-        entry = {"k": kind, "t": now, "ph": self.phase}
+        entry = {"k": kind, "t": now, "ph": self.phase, "seq": len(self.events)}
         entry.update(extra)
         self.events.append(entry)
         if actor is not None:
@@ -429,7 +429,7 @@ def current_worker():
     return task.get_name() if task else None
 
 
-def plan_for(cls, name, worker_id, try_index):
+def plan_for(cls, name, worker_id, try_index, timeout=100.0):
     """Planned (status, duration, report) of one execution; deterministic in the case."""
     plan = CTX.case.get("plan", {})
     status = plan.get("default_status", "PASS")
@@ -443,11 +443,12 @@ def plan_for(cls, name, worker_id, try_index):
     digest = hashlib.sha1(f"{plan.get('dur_seed', 0)}|{cls}|{worker_id}|{try_index}".encode()).digest()
     rnd = random.Random(digest)
     mode = plan.get("dur_mode", "heavy")
-    timeout = float(plan.get("timeout_hint", 100))
     if mode == "const":
         duration = float(plan.get("dur_const", 10))
+    elif mode == "short":
+        duration = min(timeout * 0.9, rnd.choice([0.5, 1.0, 2.0, 3.0, 5.0, 8.0, 13.0, 20.0]) * rnd.choice([1.0, 1.0, 1.1]))
     elif mode == "tied":
-        duration = rnd.choice([1.0, 2.0, 5.0, 5.0, 10.0]) + rnd.choice([0, 0, 0, 1e-3, -1e-3])
+        duration = min(timeout * 0.9, rnd.choice([1.0, 2.0, 5.0, 5.0, 10.0]) + rnd.choice([0, 0, 0, 1e-3, -1e-3]))
     else:
         # heavy tailed within (0, timeout): many short, a few close to the timeout
         duration = min(timeout * 0.98, max(0.01, timeout * (rnd.random() ** 4) + rnd.choice([0.0, 0.0, 0.05])))
@@ -479,8 +480,13 @@ async def sim_run_test_task(self, node):
                                  "permanent": entry["permanent"]})
     try_index = CTX.exec_counts[cls]
     CTX.exec_counts[cls] += 1
-    status, duration = plan_for(cls, name, worker_id, try_index)
-    withheld = cls in CTX.case.get("plan", {}).get("withhold", [])
+    try:
+        timeout = float(params.get("test_timeout", 3600))
+    except ValueError:
+        timeout = 3600.0
+    status, duration = plan_for(cls, name, worker_id, try_index, timeout)
+    withhold_re = CTX.case.get("plan", {}).get("withhold_re")
+    withheld = cls in CTX.case.get("plan", {}).get("withhold", []) or bool(withhold_re and re.search(r"(^|\.)" + re.escape(withhold_re) + r"(\.|$)", cls))
     placeholder = any(r.get("status") == "UNKNOWN" for r in node.results)
     exec_id = len([e for e in CTX.events if e["k"] == "exec_start"])
     CTX.emit("exec_start", id=exec_id, w=worker_id, task=current_worker(), name=name, cls=cls, uid=uid, prefix=node.prefix,
@@ -662,10 +668,18 @@ def make_runner(params, previous_results=None):
 
 
 def snapshot_nodes(graph):
+    from virttest.utils_params import Params
     nodes = []
     for node in graph.nodes:
         name = node.params["name"]
-        nodes.append({"name": name, "prefix": node.prefix, "cls": class_key(name, CTX.main_restrictions),
+        view = [] if node.is_flat() else node_state_view(Params(dict(node.params)))
+        nodes.append({"name": name,
+                      "gets": [[e["obj"], e["get"], e["kind"]] for e in view if e["get"] and e["get"] not in ROOTS],
+                      "sets": [[e["obj"], e["set"], e["kind"], e["unset_mode"]] for e in view if e["set"]],
+                      "permanent_objs": [e["obj"] for e in view if e["permanent"]],
+                      "max_tries": node.params.get("max_tries"), "test_timeout": node.params.get("test_timeout"),
+                      "pool_scope": node.params.get("pool_scope"), "spawner": node.params.get("nets_spawner"),
+                      "n_objects": len(node.objects), "prefix": node.prefix, "cls": class_key(name, CTX.main_restrictions),
                       "worker": worker_of_name(name), "flat": node.is_flat(), "clone_source": len(node.cloned_nodes) > 0,
                       "shared_root": node.is_shared_root(), "object_root": node.params.get("object_root"),
                       "results": [r["status"] for r in node.results], "result_names": [r.get("name") for r in node.results],
